@@ -73,6 +73,9 @@ func c08RandName(r *tr.Rng, hostile bool) string {
 }
 
 type c08Env struct {
+	// Label objects kept from earlier operations: an API client may well reuse one (set after get,
+	// set after set); the result must not depend on that
+	labelObjs map[string]*core.Label
 	c       *ctx
 	env     *corekit.Env
 	bundles []string                   // rank -> bundle id
@@ -175,10 +178,20 @@ func (e *c08Env) set(repo, name string, rank int) {
 	id := e.bundles[rank]
 	res := e.mutate(repo, name, func() error {
 		b := e.handle(repo, id)
-		l := core.NewLabel(core.LabelDescriptor(model.NewLabelDescriptor(
-			model.LabelName(name),
-			model.LabelContributor(model.Contributor{Name: "verif", Email: "verif@example.com"}),
-		)))
+		key := repo + "\x00" + name
+		l, reuse := e.labelObjs[key]
+		if !reuse || e.c.rng.Intn(2) == 0 {
+			l = core.NewLabel(core.LabelDescriptor(model.NewLabelDescriptor(
+				model.LabelName(name),
+				model.LabelContributor(model.Contributor{Name: "verif", Email: "verif@example.com"}),
+			)))
+		} else {
+			e.c.w.Count("set.label-object=reused")
+		}
+		if e.labelObjs == nil {
+			e.labelObjs = map[string]*core.Label{}
+		}
+		e.labelObjs[key] = l
 		return l.UploadDescriptor(context.Background(), b)
 	})
 	e.c.w.Op(fmt.Sprintf("set r=%s n=%s b=%d", tr.Esc(repo), tr.Esc(name), rank), res)
@@ -201,6 +214,10 @@ func (e *c08Env) get(repo, name string) {
 			return err
 		}
 		got = l.Descriptor.BundleID
+		if e.labelObjs == nil {
+			e.labelObjs = map[string]*core.Label{}
+		}
+		e.labelObjs[repo+"\x00"+name] = l // a later set may reuse the object that was read
 		return nil
 	})
 	res := corekit.ErrClass(err)
